@@ -1,7 +1,7 @@
 (* Proofs/MetaQcow2.v — the QCOW2 extension walk and snapshot table reader return exactly what
    the format's writer stored, for every count and every length. *)
 From Coq Require Import String ZArith List Bool Lia.
-From DH Require Import Base.Arith Base.Plan Base.Layout Gen.Consts Gen.Layouts
+From DH Require Import Base.Arith Base.Plan Base.Layout Gen.Consts Gen.Layouts Gen.MetaQcow2Tables
      Model.MetaCodec Model.MetaQcow2 Proofs.MetaCodec.
 Import ListNotations.
 Open Scope list_scope.
@@ -18,7 +18,7 @@ Proof. repeat split; reflexivity. Qed.
 
 Lemma pad8_align len : 0 <= len < 2 ^ 32 - 7 -> pad8 len = align8 len.
 Proof.
-  intros H. unfold pad8, align8. apply land_mask8. lia.
+  intros H. unfold pad8, align8. change meta_qcow2_pad_mask with 4294967288. apply land_mask8. lia.
 Qed.
 
 Lemma align8_ge n : 0 <= n -> n <= align8 n.
@@ -181,7 +181,7 @@ Proof.
       destruct (magic =? qcow2_QCOW2_EXT_MAGIC_END); [discriminate|].
       apply orb_false_elim in Hb as [_ Hb].
       destruct (Z.gtb_spec len (end_ - (offset + 8))) as [|Hlen]; [discriminate|].
-      assert (Hp : 0 <= pad8 len) by (unfold pad8; apply Z.land_nonneg; right; lia).
+      assert (Hp : 0 <= pad8 len) by (unfold pad8; apply Z.land_nonneg; right; unfold meta_qcow2_pad_mask; lia).
       specialize (IH (offset + 8 + pad8 len) end_).
       destruct (ext_walk fuel rd (offset + 8 + pad8 len) end_) eqn:Hw; cbn [bind]; try discriminate.
       exfalso. apply IH; [|reflexivity].
